@@ -291,8 +291,8 @@ def step (_ : Unit) (toks : List String) : Unit × String :=
       let v ← parseVal v
       let p ← findPayload cls
       match v with
-      | .record attrs => some (match Old.toPack cls attrs with
-          | some pl => showBytes (packList p.fmts pl)
+      | .record attrs => some (match Code.evalPack (Gen.codeOf cls) attrs.toList with   -- the TRANSLATED to_pack_list
+          | some pl => showBytes (packList p.fmts (ValList.ofList pl))
           | none => "err topack")
       | _ => none
     | ["decode", cls, h, off] => do
@@ -300,8 +300,8 @@ def step (_ : Unit) (toks : List String) : Unit × String :=
       let d ← ofHex? h
       let off ← off.toNat?
       some (match unpackListAt p.fmts d off with
-        | .ok (ul, o) => (match Old.fromUnpack cls ul with
-            | some attrs => s!"ok {showVal (.record attrs)} {o}"
+        | .ok (ul, o) => (match Code.evalUnpack (Gen.codeOf cls) (flatten p.fmts ul) with   -- the TRANSLATED from_unpack_list
+            | some attrs => s!"ok {showVal (.record (ValList.ofList attrs))} {o}"
             | none => "err fromunpack")
         | .error e => "err " ++ showErr e)
     | "dlist" :: c :: h :: off :: clss => do
@@ -310,8 +310,8 @@ def step (_ : Unit) (toks : List String) : Unit × String :=
       let ps ← clss.mapM findPayload
       some (match unpackPayloadsAt (ps.map (·.fmts)) d off (c == "1") with
         | .ok (vss, rem) =>
-          (match (List.zip clss vss).mapM (fun (c, ul) => Old.fromUnpack c ul) with
-            | some as => "ok " ++ showVal (.list (ValList.ofList (as.map Val.record))) ++ " " ++ toHex rem
+          (match (List.zip ps vss).mapM (fun (p, ul) => Code.evalUnpack (Gen.codeOf p.name) (flatten p.fmts ul)) with
+            | some as => "ok " ++ showVal (.list (ValList.ofList (as.map (fun a => Val.record (ValList.ofList a))))) ++ " " ++ toHex rem
             | none => "err fromunpack")
         | .error e => "err " ++ showErr e)
     | ["old", cls, "pack", v] => do
@@ -370,7 +370,9 @@ def step (_ : Unit) (toks : List String) : Unit × String :=
     | ["old", cls, "init", v] => do
       let v ← parseVal v
       match v with
-      | .record args => some ("ok " ++ showVal (.record (ValList.ofList (Old.init cls args.toList))))
+      | .record args => some (match Code.evalInit (Gen.codeOf cls) args.toList with   -- the TRANSLATED __init__
+          | some attrs => "ok " ++ showVal (.record (ValList.ofList attrs))
+          | none => "err init")
       | _ => none
     | ["reg", excl, overlays, k, name] => do
       let exclude := if excl == "-" then [] else splitChar excl ','
